@@ -105,7 +105,7 @@ C13c(e) == e.mfaults = 0
 (* action predicates on two consecutive records of the same run            *)
 
 SameRun(a, b) == a.run = b.run
-C06c(a, b) == a.closed => b.closed
+C06c(a, b) == (a.closed /\ ~b.poolgone) => b.closed
 C07b(a, b) == (b.live + b.creating > a.live + a.creating) => b.live + b.creating <= b.max
 
 StateViol(e) ==
